@@ -186,6 +186,10 @@ class _IndexErr(Exception):
     pass
 
 
+class _Converted(Exception):
+    """the query or the array is converted to another dtype before being compared"""
+
+
 class BisectDomain(Domain):
     """array = strictly increasing of length n (element i at coordinate 2i+1); query at coordinate q in 0..2n."""
 
@@ -331,7 +335,9 @@ class VecBisectDomain(BisectDomain):
 
     def call(self, name, node, args, kwargs, interp):
         short = (name or "").split(".")[-1]
-        if short in ("asarray", "array") and args and isinstance(args[0], (_Vec, _Arr)):
+        if short in ("asarray", "array", "astype") and args and isinstance(args[0], (_Vec, _Arr)):
+            if len(args) > 1 or any(k in kwargs for k in ("dtype",)):
+                raise _Converted(src(node))
             return args[0]
         if short in ("zeros_like", "ones_like") and args and isinstance(args[0], _Vec):
             return _Vec("int", [0 if short == "zeros_like" else 1] * len(args[0]))
@@ -402,6 +408,12 @@ def bisection_vec(repo, run, tier):
                 bad.append((n, qs, "IndexError at %s" % e))
                 run.judged(r5, "n=%d queries=%s" % (n, qs), ok=False)
                 continue
+            except _Converted as e:
+                run.judged(r5, "conversion %s" % e, ok=False)
+                run.report("C17.5", UTIL, fn, "the queries (or the array) are converted to another dtype (`%s`) before they are compared: a query between two representable "
+                                              "values of the narrower type is rounded onto an element, so the vector search no longer returns the first element not smaller than "
+                                              "the query and disagrees with the scalar search" % e, text="search_bisection_vec converts its operands: %s" % e)
+                return
             except PathLimit:
                 bad.append((n, qs, "does not terminate within the step bound"))
                 run.judged(r5, "n=%d queries=%s" % (n, qs), ok=False)
